@@ -230,7 +230,10 @@ fn sub_case(r: &mut Report, acc: &mut Acc, case: u64, needle: &[u8], hay: &[u8])
 }
 
 fn main() {
-    mcore::install_quiet_panic_hook();
+    mcore::run_main(real_main);
+}
+
+fn real_main() {
     let args = Args::parse();
     let out = args.str("out", "-");
     let thorough = args.str("tier", "quick") == "thorough";
